@@ -150,3 +150,42 @@ pub proof fn lemma_trunc_to_floor(a: int, b: int)
         lemma_py_divmod_characterises(a, b, q0, r0);
     }
 }
+
+/// The same for kernels written with Euclidean division (`rem_euclid` / `div_euclid`): with
+/// r0 = a mod b in [0, |b|) and q0 = (a - r0) / b, Python's answers are (q0, r0) for b > 0 and
+/// (q0, r0) if r0 == 0 else (q0 - 1, r0 + b) for b < 0. Part of every kernel prelude so that an
+/// equivalent rewrite in those terms still verifies.
+pub proof fn lemma_euclid_to_floor(a: int, b: int)
+    requires b != 0,
+    ensures
+        ({
+            let q0 = a / b;
+            let r0 = a % b;
+            &&& a == q0 * b + r0
+            &&& 0 <= r0
+            &&& (b > 0 ==> r0 < b)
+            &&& (b < 0 ==> r0 < -b)
+            &&& (b > 0 || r0 == 0 ==> py_floor(a, b) == q0 && py_rem(a, b) == r0)
+            &&& (b < 0 && r0 != 0 ==> py_floor(a, b) == q0 - 1 && py_rem(a, b) == r0 + b)
+        }),
+{
+    let q0 = a / b;
+    let r0 = a % b;
+    lemma_fundamental_div_mod(a, b);
+    assert(a == q0 * b + r0) by(nonlinear_arith) requires a == b * q0 + r0;
+    if b > 0 {
+        lemma_mod_bound(a, b);
+        assert(is_py_divmod(a, b, q0, r0));
+        lemma_py_divmod_characterises(a, b, q0, r0);
+    } else {
+        lemma_mod_neg_bound(a, b);
+        if r0 == 0 {
+            assert(is_py_divmod(a, b, q0, r0));
+            lemma_py_divmod_characterises(a, b, q0, r0);
+        } else {
+            assert(a == (q0 - 1) * b + (r0 + b)) by(nonlinear_arith) requires a == q0 * b + r0;
+            assert(is_py_divmod(a, b, q0 - 1, r0 + b));
+            lemma_py_divmod_characterises(a, b, q0 - 1, r0 + b);
+        }
+    }
+}
